@@ -30,7 +30,6 @@ FINDING_END_SPACING = 'inline-end-spacing-overflow'
 FINDING_END_RESERVED = 'inline-end-spacing-reserved-early'
 FINDING_STALE_WIDTH = 'inline-box-width-stale'
 FINDING_BOUNDARY = 'waiting-box-boundary-opportunity-unused'
-FINDING_NOWRAP_COLLAPSED = 'nowrap-breaks-after-collapsed-space'
 FINDING_FLOAT_INDENT = 'float-gap-text-indent-later-lines'
 FINDING_FLOAT_BAND = 'float-align-width-not-of-line-box'
 FINDING_SOFT_HYPHEN = 'soft-hyphen-forces-overflowing-line'
@@ -1225,11 +1224,8 @@ def inline_violations(nodes, width, canon, ws='normal', place=None):
         while got_lines and got_lines[-1] == '':
             got_lines.pop()
         if got_lines != want_lines:
-            # known finding nowrap-breaks-after-collapsed-space: a box whose trailing space collapsed away
-            # (trailing_collapsible_space) is followed by a break opportunity even under nowrap
-            flagged = '(f ' in sx.dumps(nodes)
             out.append((f'white-space:{ws}: lines {got_lines[:8]!r} are not the text between preserved line breaks '
-                        f'{want_lines[:8]!r}', FINDING_NOWRAP_COLLAPSED if (flagged and ws == 'nowrap') else None))
+                        f'{want_lines[:8]!r}', None))
         return out
     if not greedy_domain(nodes) or ws not in COLLAPSE:
         return out                  # preserved spaces at the end of a line hang (pre-wrap)
@@ -1875,7 +1871,8 @@ class C09(PropCheck):
         sec = run.section(
             'regressions',
             'corpus first: the inputs of the repaired findings (negative-width-unbroken, '
-            'vertical-align-top-bottom-subtree, preserved-line-break-flag-stale-after-rebreak), deterministic, compared with the model through the protocol of the '
+            'vertical-align-top-bottom-subtree, preserved-line-break-flag-stale-after-rebreak, '
+            'nowrap-breaks-after-collapsed-space), deterministic, compared with the model through the protocol of the '
             'section named in meta["as"] and judged at full strength (a fixed: entry suppresses nothing); '
             'non-trivial = every case')
         spec = regression_negative_width_spec()
@@ -2540,7 +2537,6 @@ class C09(PropCheck):
                 FINDING_START_SPACING: finding_start_spacing, FINDING_END_SPACING: finding_end_spacing,
                 FINDING_END_RESERVED: finding_end_reserved, FINDING_STALE_WIDTH: finding_stale_width,
                 FINDING_FLOAT_INDENT: finding_float_indent, FINDING_BOUNDARY: finding_boundary,
-                FINDING_NOWRAP_COLLAPSED: finding_nowrap_collapsed,
                 FINDING_SOFT_HYPHEN: finding_soft_hyphen, FINDING_FLOAT_BAND: finding_float_band}
 
     def replay(self, data):
@@ -2661,14 +2657,6 @@ def finding_boundary():
     return len(lines) == 1 and lines[0][0] > 75 and ' ' in lines[0][1].strip()
 
 
-def finding_nowrap_collapsed():
-    """white-space:nowrap; width:50px; 'aaa <b> </b>bbb': two lines."""
-    html = f'<style>{PAGE_CSS}</style>' + corpus_body('nowrap_breaks_after_collapsed_space')
-    _, pages = ic.pipeline_trees(html, enc)
-    (block, lines), = ic.laid_out_paragraphs(pages)
-    return len(lines) == 2
-
-
 def finding_stale_width():
     """<span>aaa bbb<span style="padding-left:10px"> ccc</span></span> in 70px: the outer span of the first line is
     70px wide and holds only 'aaa' (30px)."""
@@ -2680,8 +2668,8 @@ def finding_stale_width():
     return Fraction(span.width) != sum(Fraction(c.margin_width()) for c in span.children)
 
 
-# corpus inputs of repaired findings on nested inline boxes (fix 889a2ec)
-REGRESSION_INLINE = ['preserved_line_break_flag_stale_after_rebreak']
+# corpus inputs of repaired findings on nested inline boxes (fixes 889a2ec, fd6f32a)
+REGRESSION_INLINE = ['preserved_line_break_flag_stale_after_rebreak', 'nowrap_breaks_after_collapsed_space']
 
 REGRESSION_VERTICAL = [
     # repaired finding vertical-align-top-bottom-subtree (fix 5152049): 'dd' was left above the line box
@@ -2896,8 +2884,8 @@ MANIFEST = {
             'waiting-box-boundary-opportunity-unused. Round 4: preserved-line-break-flag-stale-after-rebreak repaired (fixed: entry, '
             'regression theorem and corpus case); the model now starts from the source text (white-space processing and the '
             'collapsed-space flag trailing_collapsible_space that split_inline_box reads as a break opportunity), new '
-            'finding nowrap-breaks-after-collapsed-space (nested_no_wrap_breaks_only_at_newline_partial needs the '
-            'hypothesis that no box carries the flag). Soft hyphens are not modelled (finding '
+            'finding nowrap-breaks-after-collapsed-space, repaired in round 5 (fd6f32a): '
+            'nested_no_wrap_breaks_only_at_newline is full strength. Soft hyphens are not modelled (finding '
             'soft-hyphen-forces-overflowing-line is replayed at document level only). Not modelled: bidi (rtl paragraphs only with normal word-break/overflow-wrap, nested inline '
             'boxes only ltr), floats inside lines, atomic inlines, first-letter, leaders.',
 }
